@@ -1,5 +1,6 @@
 (** C30 — proofs: with #XX escaping every name of bytes reads back at both emission sites; every
-    ASCII name reads back as the same String; the validation gate implies the regular-name
+    name that is a Rust String (valid UTF-8) reads back as the same String, as resource-dictionary key
+    and as Do operand (reader after fix_name_utf8); the validation gate implies the regular-name
     condition (under which the escaper changes nothing). *)
 From OxVerif Require Import Base.Util C09.Model C09.Tokens C09.FracSweep C09.Proofs C09.Reals C09.Full C30.Model.
 From OxVerif Require C21.Tok C21.Model C21.Lexemes.
@@ -36,43 +37,50 @@ Proof.
   intros n rest H D. rewrite <- esc_same. split; [apply C21.Lexemes.scan_name_esc | apply C21.Lexemes.decode_name_esc]; assumption.
 Qed.
 
-(** ** String level: ASCII names (any ASCII: white space, delimiters, '#', controls) *)
-Lemma utf8_valid_ascii : forall n, ascii_name n = true -> Tok.utf8_valid n = true.
-Proof.
-  induction n as [|c n IH]; intro H; [reflexivity|].
-  cbn [ascii_name forallb] in H. apply andb_true_iff in H. destruct H as [Hc Hn].
-  cbn [Tok.utf8_valid]. rewrite Hc. apply IH. exact Hn.
-Qed.
+(** ** String level: EVERY name that is a Rust String (valid UTF-8; any chars: white space,
+    delimiters, '#', controls, 2-, 3- and 4-byte sequences) *)
 Lemma ascii_bytes_ok : forall n, ascii_name n = true -> bytes_ok n = true.
-Proof.
-  unfold ascii_name, bytes_ok. intros n H. rewrite forallb_forall in *. intros x Hx. specialize (H x Hx).
-  unfold byte_ok. lia.
-Qed.
+Proof. intros n A. apply utf8_valid_bytes_ok, utf8_valid_ascii, A. Qed.
 Lemma bytes_eqb_refl : forall n, bytes_eqb n n = true.
 Proof. intro n. apply bytes_eqb_eq. reflexivity. Qed.
 
-Lemma key_back_ascii : forall n, ascii_name n = true -> key_back n = Some n.
+Lemma key_back_utf8 : forall n, Tok.utf8_valid n = true -> key_back n = Some n.
 Proof.
-  intros n A. unfold key_back. rewrite (name_roundtrip n [32] (ascii_bytes_ok n A)) by (cbn; auto).
-  rewrite (l1_utf8_ascii n A). reflexivity.
+  intros n U. unfold key_back. rewrite (name_roundtrip n [32] (utf8_valid_bytes_ok n U)) by (cbn; auto).
+  rewrite (name_string_utf8 n U). reflexivity.
 Qed.
-Lemma operand_back_utf8 : forall n, bytes_ok n = true -> Tok.utf8_valid n = true -> operand_back n = Some n.
+Lemma operand_back_utf8 : forall n, Tok.utf8_valid n = true -> operand_back n = Some n.
 Proof.
-  intros n B U. unfold operand_back.
-  destruct (content_name_roundtrip n [32; 68; 111; 10] B eq_refl) as [S D]. rewrite S, D, U. reflexivity.
+  intros n U. unfold operand_back.
+  destruct (content_name_roundtrip n [32; 68; 111; 10] (utf8_valid_bytes_ok n U) eq_refl) as [S D]. rewrite S, D, U. reflexivity.
 Qed.
+(** key and operand are the SAME String, and it is the user's *)
+Lemma key_is_operand : forall n, Tok.utf8_valid n = true -> key_back n = operand_back n /\ key_back n = Some n.
+Proof. intros n U. rewrite (key_back_utf8 n U), (operand_back_utf8 n U). split; reflexivity. Qed.
 
-Lemma image_ascii_reads_back : forall n, ascii_name n = true -> predicted EImage n = 0.
+Lemma image_utf8_reads_back : forall n, Tok.utf8_valid n = true -> predicted EImage n = 0.
 Proof.
-  intros n A. unfold predicted. rewrite (key_back_ascii n A).
-  rewrite (operand_back_utf8 n (ascii_bytes_ok n A) (utf8_valid_ascii n A)).
+  intros n U. unfold predicted. rewrite (key_back_utf8 n U), (operand_back_utf8 n U).
   cbn [same]. rewrite bytes_eqb_refl. reflexivity.
 Qed.
-Lemma form_ascii_never_broken : forall n, ascii_name n = true -> predicted EForm n <> 2.
+Lemma form_utf8_never_broken : forall n, Tok.utf8_valid n = true -> predicted EForm n <> 2.
 Proof.
-  intros n A. unfold predicted. destruct (valid_resource_name n); [|discriminate].
-  rewrite (key_back_ascii n A). cbn [same]. rewrite bytes_eqb_refl. discriminate.
+  intros n U. unfold predicted. destruct (valid_resource_name n); [|discriminate].
+  rewrite (key_back_utf8 n U). cbn [same]. rewrite bytes_eqb_refl. discriminate.
 Qed.
+(** the former ASCII-only statements are instances *)
+Lemma key_back_ascii : forall n, ascii_name n = true -> key_back n = Some n.
+Proof. intros n A. apply key_back_utf8, utf8_valid_ascii, A. Qed.
+Lemma image_ascii_reads_back : forall n, ascii_name n = true -> predicted EImage n = 0.
+Proof. intros n A. apply image_utf8_reads_back, utf8_valid_ascii, A. Qed.
+Lemma form_ascii_never_broken : forall n, ascii_name n = true -> predicted EForm n <> 2.
+Proof. intros n A. apply form_utf8_never_broken, utf8_valid_ascii, A. Qed.
+Example utf8_hyp_nonvacuous :
+  Tok.utf8_valid [195; 169; 228; 184; 173; 49] = true /\ ascii_name [195; 169; 228; 184; 173; 49] = false
+  /\ predicted EImage [195; 169; 228; 184; 173; 49] = 0 /\ predicted EForm [195; 169; 228; 184; 173; 49] = 0
+  /\ predicted EImage [240; 159; 152; 128; 32; 35] = 0 /\ predicted EForm [240; 159; 152; 128; 32; 35] = 1
+  /\ Tok.utf8_valid [237; 160; 128] = false /\ Tok.utf8_valid [192; 128] = false /\ Tok.utf8_valid [244; 144; 128; 128] = false.
+Proof. vm_compute. repeat split; reflexivity. Qed.
 
 Lemma gated_name_reads_back : forall n rest, valid_resource_name n = true -> bytes_ok n = true -> good_rest rest ->
   lex1 (47 :: esc_iso n ++ rest) = (TName n, rest).
@@ -87,11 +95,14 @@ Lemma raw_name_refuted_pinned : exists n, lex1 (47 :: n ++ [32]) <> (TName n, [3
                                    /\ predicted EImage n = 0.
 Proof. exists (b "My Image"). vm_compute. repeat split; try reflexivity. discriminate. Qed.
 
-(** what remains (C30-name-nonascii): the object reader builds one char per byte, so the key of a
-    non-ASCII name comes back as a different String, while the content tokenizer decodes UTF-8 *)
-Lemma nonascii_refuted : exists n, bytes_ok n = true /\ Tok.utf8_valid n = true /\ ascii_name n = false
-  /\ key_back n = Some [195; 131; 194; 169] /\ operand_back n = Some n
-  /\ predicted EImage n = 2 /\ predicted EForm n = 2 /\ n = [195; 169].
+(** RECORD of the reader before fix_name_utf8 ([key_back_pinned], [predicted_latin1_pinned]: one char
+    per byte; former finding C30-name-nonascii): the key of a non-ASCII name came back as a different
+    String while the content tokenizer decoded UTF-8, so key and operand no longer matched.  With the
+    repaired reader ([key_back], [predicted]) the same name reads back at both sites. *)
+Lemma nonascii_refuted_pinned : exists n, bytes_ok n = true /\ Tok.utf8_valid n = true /\ ascii_name n = false
+  /\ key_back_pinned n = Some [195; 131; 194; 169] /\ operand_back n = Some n
+  /\ predicted_latin1_pinned EImage n = 2 /\ predicted_latin1_pinned EForm n = 2
+  /\ key_back n = Some n /\ predicted EImage n = 0 /\ predicted EForm n = 0 /\ n = [195; 169].
 Proof. exists [195; 169]. vm_compute. repeat split. Qed.
 
 Example gate_nonvacuous : valid_resource_name (b "Im{1") = false /\ valid_resource_name (b "Fm0+x") = true
